@@ -331,6 +331,34 @@ class _CallIdioms(ast.NodeTransformer):
     def __init__(self):
         self.n = 0
 
+    def _unroll(self, node, parts):
+        """comprehension over a short literal sequence of constants -> the literal it denotes"""
+        if len(node.generators) != 1:
+            return None
+        g = node.generators[0]
+        if g.ifs or g.is_async or not isinstance(g.target, ast.Name) or not isinstance(g.iter, (ast.Tuple, ast.List)) or not (0 < len(g.iter.elts) <= 24) or not all(isinstance(e, ast.Constant) for e in g.iter.elts):
+            return None
+        out = []
+        for e in g.iter.elts:
+            out.append([_Subst({}, {g.target.id: e}).visit(copy.deepcopy(p_)) for p_ in parts])
+        return out
+
+    def visit_DictComp(self, node):
+        self.generic_visit(node)
+        rows = self._unroll(node, [node.key, node.value])
+        if rows is None:
+            return node
+        self.n += 1
+        return ast.fix_missing_locations(ast.copy_location(ast.Dict(keys=[r[0] for r in rows], values=[r[1] for r in rows]), node))
+
+    def visit_ListComp(self, node):
+        self.generic_visit(node)
+        rows = self._unroll(node, [node.elt])
+        if rows is None:
+            return node
+        self.n += 1
+        return ast.fix_missing_locations(ast.copy_location(ast.List(elts=[r[0] for r in rows], ctx=ast.Load()), node))
+
     def visit_Call(self, node):
         self.generic_visit(node)
         f = node.func
@@ -1291,6 +1319,10 @@ class Normalizer:
             if rep is not None:
                 queue = rep + queue
                 continue
+            rep = self._expand_contextmanager(s, ctx_def, ctx_names)
+            if rep is not None:
+                queue = rep + queue
+                continue
             before = self._in_expression(s, ctx_def, ctx_names)
             if before:
                 queue = before + [s] + queue
@@ -1306,6 +1338,78 @@ class Normalizer:
                     c.body = self._xform_block(c.body, ctx_def, ctx_names, depth + 1)
             out.append(s)
         return out
+
+    def _expand_contextmanager(self, s, ctx_def, ctx_names):
+        """`with helper(args): BODY` over a transparent @contextmanager generator with a single `yield` statement: the
+        helper's body with BODY in place of the yield (`with rewinding(stream): X` is `try: X / except: seek; raise`)"""
+        if not isinstance(s, (ast.With, ast.AsyncWith)) or len(s.items) != 1 or not isinstance(s.items[0].context_expr, ast.Call):
+            return None
+        call = s.items[0].context_expr
+        d = self.resolve(call.func, ctx_def)
+        if d is None:
+            return None
+        decos = [x.id if isinstance(x, ast.Name) else getattr(x, 'attr', None) for x in d.node.decorator_list]
+        want = 'asynccontextmanager' if isinstance(s, ast.AsyncWith) else 'contextmanager'
+        if decos != [want] or isinstance(d.node, ast.AsyncFunctionDef) != isinstance(s, ast.AsyncWith):
+            return None
+        yields = [n for n in _local_walk(d.node) if isinstance(n, (ast.Yield, ast.YieldFrom))]
+        if len(yields) != 1 or not isinstance(yields[0], ast.Yield) or any(isinstance(n, ast.Return) for n in _local_walk(d.node)):
+            return None
+        if any(isinstance(n, (ast.Return, ast.Break, ast.Continue)) for st in s.body for n in _local_walk(st) if not isinstance(st, FuncNode)):
+            # BODY leaves on its own: inside the helper's try that would run other handlers than a `with` does
+            if any(isinstance(n, ast.Return) for st in s.body for n in _local_walk(st)):
+                return None
+        saved = d.node.decorator_list
+        d.node.decorator_list = []
+        try:
+            if not self._inlinable(d):
+                return None
+            try:
+                prologue, hbody = self._prepare_body(d, call, ctx_names)
+            except Refuse:
+                self.stats['refused'] += 1
+                return None
+        finally:
+            d.node.decorator_list = saved
+        target = s.items[0].optional_vars
+        done = [False]
+
+        def place(stmts):
+            out = []
+            for st in stmts:
+                if isinstance(st, ast.Expr) and isinstance(st.value, ast.Yield):
+                    if target is not None:
+                        if st.value.value is None:
+                            return None
+                        out.append(ast.copy_location(ast.Assign(targets=[target], value=st.value.value, type_comment=None), s))
+                    out.extend(s.body)
+                    done[0] = True
+                    continue
+                if isinstance(st, ast.Assign) and isinstance(st.value, ast.Yield):
+                    return None
+                for fld in ('body', 'orelse', 'finalbody'):
+                    blk = getattr(st, fld, None)
+                    if isinstance(blk, list) and blk and isinstance(blk[0], ast.stmt) and not isinstance(st, FuncNode + (ast.ClassDef,)):
+                        r = place(blk)
+                        if r is None:
+                            return None
+                        setattr(st, fld, r)
+                for h in getattr(st, 'handlers', []) or []:
+                    r = place(h.body)
+                    if r is None:
+                        return None
+                    h.body = r
+                out.append(st)
+            return out
+
+        body = place(hbody)
+        if body is None or not done[0]:
+            return None
+        for st in prologue + body:
+            ast.fix_missing_locations(st)
+        self.stats['inlined_calls'] += 1
+        self.log.append(f'expand context manager {d.rel}::{d.qual} at line {getattr(s, "lineno", 0)}')
+        return prologue + body
 
     def _comprehension_over_helper(self, s, ctx_def):
         """`t = {E for x in helper(..)}` over a transparent generator helper -> `t = set()` + loop (then fused)"""
@@ -1872,6 +1976,36 @@ class Normalizer:
                 continue
             refs = [x for x in ast.walk(fn) if isinstance(x, ast.Name) and x.id == fdef.name and isinstance(x.ctx, ast.Load)]
             extra = n.args[k0 + 1 :]
+            if len(refs) == 1 and n.keywords and n.func.attr == 'submit' and all(k.arg and isinstance(k.value, ast.Name) for k in n.keywords):
+                # submit(f, x, y, k=v, ..): the keyword arguments are the closure variables, the positional ones stay parameters
+                a = fdef.args
+                body_names = _all_names(ast.Module(body=fdef.body, type_ignores=[]))
+                plan = []
+                for k in n.keywords:
+                    cand = [x for x in a.kwonlyargs + a.args if x.arg == k.arg]
+                    if not cand:
+                        plan = None
+                        break
+                    plan.append((cand[0], k.value.id))
+                if plan and not any(prm.arg != var and var in body_names for prm, var in plan):
+                    ren = {}
+                    for prm, var in plan:
+                        if prm.arg != var:
+                            ren[prm.arg] = var
+                        if prm in a.kwonlyargs:
+                            j = a.kwonlyargs.index(prm)
+                            del a.kw_defaults[j]
+                            a.kwonlyargs.remove(prm)
+                        elif prm in a.args:
+                            k_from_end = len(a.posonlyargs + a.args) - (a.posonlyargs + a.args).index(prm)
+                            if k_from_end <= len(a.defaults):
+                                del a.defaults[len(a.defaults) - k_from_end]
+                            a.args.remove(prm)
+                    if ren:
+                        fdef.body = [_Subst(ren, {}).visit(st) for st in fdef.body]
+                    n.keywords = []
+                    self.stats['idioms'] += 1
+                continue
             if len(refs) != 1 or not extra or n.keywords or not all(isinstance(v, ast.Name) for v in extra):
                 continue
             a = fdef.args
@@ -1879,8 +2013,18 @@ class Normalizer:
             if len(extra) > len(pos_params):
                 continue
             body_names = _all_names(ast.Module(body=fdef.body, type_ignores=[]))
-            plan = [(pos_params[i], v.id) for i, v in enumerate(extra)]
-            if any(prm.arg != var and var in body_names for prm, var in plan):
+            # the item of an enclosing loop is what the submitted function is applied to: it stays a parameter;
+            # the loop-invariant locals are the closure variables
+            per_item = set()
+            cur = parents.get(id(n))
+            while cur is not None and cur is not fn:
+                if isinstance(cur, (ast.For, ast.AsyncFor)):
+                    per_item |= {x.id for x in ast.walk(cur.target) if isinstance(x, ast.Name)}
+                if isinstance(cur, (ast.ListComp, ast.SetComp, ast.DictComp, ast.GeneratorExp)):
+                    per_item |= {x.id for g_ in cur.generators for x in ast.walk(g_.target) if isinstance(x, ast.Name)}
+                cur = parents.get(id(cur))
+            plan = [(pos_params[i], v.id) for i, v in enumerate(extra) if v.id not in per_item]
+            if not plan or any(prm.arg != var and var in body_names for prm, var in plan):
                 continue
             ren = {}
             for prm, var in plan:
@@ -1894,7 +2038,7 @@ class Normalizer:
                         lst.remove(prm)
             if ren:
                 fdef.body = [_Subst(ren, {}).visit(st) for st in fdef.body]
-            n.args = n.args[: k0 + 1]
+            n.args = n.args[: k0 + 1] + [v for v in extra if v.id in per_item]
             self.stats['idioms'] += 1
         # (f(x, a, b) for x in xs) with f a de-hoisted method and a, b plain locals: a, b are closure variables of f again
         # and the generator is map(f, xs) - the form `gather(*map(_closure, xs))` the code had before f was hoisted
@@ -2355,6 +2499,10 @@ class Normalizer:
                 ctor_in_maker_return = all(any(isinstance(r, ast.Return) and r.value is c for fn in funcs if fn.name in makers for r in _local_walk(fn)) for c in ctors)
                 if not makers or not ctor_in_maker_return:
                     continue
+                # a maker handed around as a value (executor.submit(maker, ..)) returns into code this pass cannot follow
+                called = {id(c.func) for c in ast.walk(tree) if isinstance(c, ast.Call)}
+                if any((isinstance(n, ast.Name) and n.id in makers and isinstance(n.ctx, ast.Load) or isinstance(n, ast.Attribute) and n.attr in makers) and id(n) not in called for n in ast.walk(tree)):
+                    continue
                 ok = True
                 rewrites = []  # (function, name node parent chain)
                 for fn in funcs:
@@ -2410,6 +2558,67 @@ class Normalizer:
                 self.stats['idioms'] += 1
                 self.log.append(f'{rel}: record type {cname} is read as the dict its makers ({", ".join(sorted(makers))}) returned')
             ast.fix_missing_locations(tree)
+
+    # ------------------------------------------------------- parameter names
+    def _rename_params_back(self):
+        """An inventory function whose parameters have the same shape but other names had its parameters renamed:
+        the names of the design tree are restored (in the body and in keyword arguments at the call sites), so that
+        what the rules and the term evaluator call `<param>` does not depend on the spelling."""
+        by_name = {}
+        escaped = None
+        for rel, defs in self.defs.items():
+            for d in defs:
+                by_name.setdefault(d.name, []).append(d)
+        for rel, defs in self.defs.items():
+            inv = self.inv.get(rel)
+            if inv is None:
+                continue
+            for d in defs:
+                q = self.canonical.get(id(d), d.qual)
+                prof = inv.get('profiles', {}).get(q)
+                if not prof or 'params' not in prof:
+                    continue
+                a = d.node.args
+                cur = a.posonlyargs + a.args + a.kwonlyargs
+                shape = [len(a.posonlyargs), len(a.args), len(a.kwonlyargs), bool(a.vararg), bool(a.kwarg)]
+                if shape != prof['pshape'] or [x.arg for x in cur] == prof['params']:
+                    continue
+                ren = {x.arg: o for x, o in zip(cur, prof['params']) if x.arg != o}
+                # a function that is also handed around as a value (a table of getters, a callback) is called from sites
+                # whose keyword arguments this pass cannot see: its parameter names are left as they are
+                if escaped is None:
+                    called = {id(c.func) for tree in self.trees.values() for c in ast.walk(tree) if isinstance(c, ast.Call)}
+                    escaped = set()
+                    for tree in self.trees.values():
+                        for n in ast.walk(tree):
+                            if isinstance(n, ast.Name) and isinstance(n.ctx, ast.Load) and id(n) not in called:
+                                escaped.add(n.id)
+                            elif isinstance(n, ast.Attribute) and isinstance(n.ctx, ast.Load) and id(n) not in called:
+                                escaped.add(n.attr)
+                if d.name in escaped and any(x.arg in ren for x in a.args + a.kwonlyargs):
+                    continue
+                names = _all_names(d.node)
+                if any(o in names and o not in ren for o in ren.values()):
+                    continue  # the old name is in use for something else
+                if any(isinstance(n, FuncNode + (ast.Lambda,)) and n is not d.node and any(x.arg in ren for x in ast.walk(n.args) if isinstance(x, ast.arg)) for n in ast.walk(d.node)):
+                    continue
+                for x in cur:
+                    if x.arg in ren:
+                        x.arg = ren[x.arg]
+                # two-step renaming keeps swaps (a, b -> b, a) apart
+                tmp = {k: f'__p{i}__' for i, k in enumerate(ren)}
+                d.node.body = [_Subst(tmp, {}).visit(st) for st in d.node.body]
+                d.node.body = [_Subst({tmp[k]: v for k, v in ren.items()}, {}).visit(st) for st in d.node.body]
+                kw_ren = {k: v for k, v in ren.items() if k in {x.arg for x in a.args + a.kwonlyargs} | set(ren.values()) or True}
+                if len(by_name.get(d.name, [])) == 1:
+                    for tree in self.trees.values():
+                        for c in ast.walk(tree):
+                            if isinstance(c, ast.Call) and ((isinstance(c.func, ast.Name) and c.func.id == d.name) or (isinstance(c.func, ast.Attribute) and c.func.attr == d.name)):
+                                for k in c.keywords:
+                                    if k.arg in kw_ren:
+                                        k.arg = kw_ren[k.arg]
+                self.stats['params_renamed_back'] = self.stats.get('params_renamed_back', 0) + 1
+                self.log.append(f'{rel}: parameters of {q} are read under the names of the design tree ({", ".join(f"{k}->{v}" for k, v in ren.items())})')
 
     # ------------------------------------------------------------ re-outline
     def _reoutline(self):
@@ -2545,6 +2754,7 @@ class Normalizer:
         self._rehome_methods()
         self._index()
         self._match_renames()
+        self._rename_params_back()
         self._constants()
         for rel in sorted(self.trees):
             for d in list(self.defs[rel]):
